@@ -79,7 +79,12 @@ FIRE = [
     ("negative-angle-offset", "C06", [(AU, "    angle = 2.*coef if coef >= 0. else 4*np.pi+2*coef", "    angle = 2.*coef if coef >= 0. else 2*np.pi+2*coef")], "K9.angle-law"),
     ("suzuki-outer-once", "C06", [(AU, "        outside = 2 * recursive_trotter_suzuki_decomposition(pauli_words, order-2, time_factor*time)", "        outside = recursive_trotter_suzuki_decomposition(pauli_words, order-2, time_factor*time)")], "K9.suzuki"),
     ("identity-term-cphase-angle", "C06", [(AU, 'Gate("CPHASE", target=0, control=control, parameter=-2*np.real(coef), is_variational=variational)', 'Gate("CPHASE", target=0, control=control, parameter=-np.real(coef), is_variational=variational)')], "K9.identity-term"),
+    ("skip-terms-at-multiples-of-pi", "C06", [(AU, "            if variational or abs(np.real(coef)) > 1.e-10:", "            if variational or abs(np.sin(np.real(coef))) > 1.e-10:")], "K9.identity-term"),
+    ("fermionic-dict-time-not-divided", "C06", [(AU, "            evolve_time = {term: time for term in operator.terms.keys()}", "            evolve_time = {term: time / n_trotter_steps for term in operator.terms.keys()}"),
+                                                 (AU, "operator.terms[term]*evolve_time[term]/n_trotter_steps)", "operator.terms[term]*evolve_time[term])")], "K8.trotterize-scaling"),
     # ---- C07
+    ("uccsd-rebuild-only-on-new-words", "C07", [(UCCSD, "        if set(self.pauli_to_angles_mapping.keys()) != set(qubit_op.terms.keys()):", "        if not self.pauli_to_angles_mapping.keys() >= qubit_op.terms.keys():")], "K8.support-change"),
+    ("collapse-counter-in-data-dtype", "C16", [(MULTI, "np.linspace(0, len(operator) - 1, len(operator), dtype=int).reshape", "np.linspace(0, len(operator) - 1, len(operator), dtype=operator.dtype).reshape")], "K9.index-range-width"),
     ("uccsd-update-angle", "C07", [(UCCSD, "self.circuit._variational_gates[gate_index].parameter = 2.*coef if coef >= 0. else 4*np.pi+2*coef", "self.circuit._variational_gates[gate_index].parameter = 2.*coef if coef >= 0. else 2*np.pi+2*coef")], "K8.angle-clone"),
     ("hea-update-without-validation", "C07", [(HEA, "        self.set_var_params(var_params)\n        var_params = self.var_params\n\n        for param_index in range(self.n_var_params):",
                                                "        self.var_params = var_params\n\n        for param_index in range(self.n_var_params):")], "K6.length-validation"),
@@ -128,6 +133,12 @@ SILENT = [
     ("gate-index-check-isinstance-form", "C11", [(GATE, "if (type(ind) != int) or (ind < 0):", "if not (type(ind) == int) or ind <= -1:")]),
     ("inverse-angle-spelling", "C09", [(GATE, 'new_parameter = -pi / 2 if self.name == "S" else -pi / 4', 'new_parameter = -0.5 * pi if self.name == "S" else -0.25 * pi')]),
     ("period-table-spelling", "C09", [(GATE, 'period = 4 * pi if ds["name"] in {"CRX", "CRY", "CRZ"} else 2 * pi', 'period = 2 * pi * (2 if ds["name"] in {"CRX", "CRY", "CRZ"} else 1)')]),
+    ("fermionic-division-moved-consistently", "C06", [(AU, "            evolve_time = {term: time for term in operator.terms.keys()}", "            evolve_time = {term: time / n_trotter_steps for term in operator.terms.keys()}"),
+                                                       (AU, "                evolve_time = deepcopy(time)", "                evolve_time = {term: etime / n_trotter_steps for term, etime in time.items()}"),
+                                                       (AU, "operator.terms[term]*evolve_time[term]/n_trotter_steps)", "operator.terms[term]*evolve_time[term])")]),
+    ("skip-threshold-spelling", "C06", [(AU, "            if variational or abs(np.real(coef)) > 1.e-10:", "            if variational or not abs(np.real(coef)) <= 1.e-10:")]),
+    ("uccsd-rebuild-keys-inequality", "C07", [(UCCSD, "        if set(self.pauli_to_angles_mapping.keys()) != set(qubit_op.terms.keys()):", "        if qubit_op.terms.keys() != self.pauli_to_angles_mapping.keys():")]),
+    ("collapse-counter-int64", "C16", [(MULTI, "np.linspace(0, len(operator) - 1, len(operator), dtype=int).reshape", "np.linspace(0, len(operator) - 1, len(operator), dtype=np.int64).reshape")]),
     ("angle-law-spelling", "C06", [(AU, "    angle = 2.*coef if coef >= 0. else 4*np.pi+2*coef", "    angle = 2.*coef + (0. if coef >= 0. else 4*np.pi)")]),
     ("cirq-branches-reordered", "C01", [(TCIRQ, '        elif gate_name in {"SWAP"}:\n            target_circuit.append(GATE_CIRQ[gate_name](qubit_list[gate.target[0]], qubit_list[gate.target[1]]))\n        elif gate_name in {"CSWAP"}:\n            next_gate = GATE_CIRQ[gate_name].controlled(num_controls)\n            target_circuit.append(next_gate(*control_list, qubit_list[gate.target[0]], qubit_list[gate.target[1]]))\n',
                                          '        elif gate_name in {"CSWAP"}:\n            next_gate = GATE_CIRQ[gate_name].controlled(num_controls)\n            target_circuit.append(next_gate(*control_list, qubit_list[gate.target[0]], qubit_list[gate.target[1]]))\n        elif gate_name in {"SWAP"}:\n            target_circuit.append(GATE_CIRQ[gate_name](qubit_list[gate.target[0]], qubit_list[gate.target[1]]))\n')]),
